@@ -77,6 +77,19 @@ def write_struct_ascii(value: Any) -> bytes:
     return write_struct_uvari(len(value_str)) + value_str.encode('ascii')
 
 
+def write_struct_ident(value: Any) -> bytes:
+    """Convert value to str, encode as ASCII, and represent as bytes - according to the IDENT (and UNITS) format.
+
+    The first byte (USHORT) is the number of characters in the value (converted to str); at most 255 are allowed.
+    """
+
+    value_str = str(value)
+    if len(value_str) > 255:
+        raise ValueError(f"Identifiers (names, labels, units, etc.) cannot be longer than 255 characters; "
+                         f"got {len(value_str)} characters: '{value_str}'")
+    return RepresentationCode.USHORT.convert(len(value_str)) + value_str.encode('ascii')
+
+
 def write_struct_uvari(value: int) -> bytes:
     """Convert an integer to bytes. The format (USHORT/UNORM/ULONG) is chosen depending on the provided value."""
 
@@ -99,7 +112,7 @@ def write_struct_obname(value: "EFLRItem") -> bytes:
     try:
         origin_reference = write_struct_uvari(value.origin_reference)
         copy_number = RepresentationCode.USHORT.convert(value.copy_number)
-        name = write_struct_ascii(value.name)
+        name = write_struct_ident(value.name)
 
         obname = origin_reference + copy_number + name
 
@@ -112,7 +125,7 @@ def write_struct_obname(value: "EFLRItem") -> bytes:
 def write_struct_objref(value: "EFLRItem") -> bytes:
     """Create a reference to an EFLRObject, based on the object's name and set type it belongs to."""
 
-    return write_struct_ascii(value.parent.set_type) + value.obname
+    return write_struct_ident(value.parent.set_type) + value.obname
 
 
 def write_struct_status(value: int) -> bytes:
@@ -128,7 +141,7 @@ def write_struct_status(value: int) -> bytes:
 _struct_dict = {
     RepresentationCode.ASCII: write_struct_ascii,
     RepresentationCode.UVARI: write_struct_uvari,
-    RepresentationCode.IDENT: write_struct_ascii,
+    RepresentationCode.IDENT: write_struct_ident,
     RepresentationCode.DTIME: write_struct_dtime,
     RepresentationCode.OBNAME: write_struct_obname,
     RepresentationCode.OBJREF: write_struct_objref,
